@@ -27,6 +27,7 @@ type Job struct {
 	Unwind   int                    `json:"unwind,omitempty"`
 	MaxPaths int                    `json:"max_paths,omitempty"`
 	MapOrder bool                   `json:"map_order,omitempty"` // fork over map iteration orders
+	MapOrderMode string             `json:"map_order_mode,omitempty"` // "rotations" (default) | "permutations"
 	Vectors  []map[string]uint64    `json:"vectors,omitempty"`   // concrete mode: one run per vector
 	Concrete bool                   `json:"concrete,omitempty"`
 	ResetMode bool                  `json:"reset_mode,omitempty"` // pose every query from scratch instead of push/pop
